@@ -60,12 +60,12 @@ def pos_rebase(db, ctx):
     f = db.view(db.one("get_word_info_subset", "LexiconSet"), keep=("update_dict_id",))
     done = False
     for n, ps in walk(f.hir):
-        if n.get("k") == "Assign" and peel(n["l"]).get("k") == "Field" and peel(n["l"]).get("name") == "pos_id":
+        if n.get("k") in ("Assign", "AssignOp") and peel(n["l"]).get("k") == "Field" and peel(n["l"]).get("name") == "pos_id":
             from ..db import walk_x, deref_all as deref_let_
             from ..flow import holds_at, var_evaluator
             from ..guards import bound_cmp_evaluator
             deref_let = lambda e: deref_let_(e)
-            txt = render(n["r"], x=True)
+            txt = render(n["r"], x=True) if n["k"] == "Assign" else "pos_id %s= %s" % (n.get("op"), render(n["r"], x=True))
             sub_ok = add_ok = idx_ok = src_ok = False
             formula = None
             for x, _ in walk_x(n["r"]):
@@ -195,14 +195,20 @@ def restamp(db, ctx):
             isv = is_local_from_call("WordId::dic")
             # re-stamping happens exactly for stored dictionary numbers > 0: unreachable at 0, reachable at 1 and 14
             r0, r1, r14 = (reachable_at(f.hir, c["id"], isv, v) for v in (0, 1, 14))
-            ok = a[0] == "dict_id" and "word()" in a[1] and r0 is False and r1 is True and r14 is True
+            from ..db import is_local as _il
+            own_lid = next((p_.get("lid") for p_ in (f.info.get("params") or []) if isinstance(p_, dict) and (p_.get("ty") or "") == "u8"), None)
+            ok = _il(call_args(c)[0], own_lid) and "word()" in a[1] and r0 is False and r1 is True and r14 is True
             ctx.ob("update_dict_id|restamp", ok, "ids are rewritten as WordId::checked(%s) under %s (owner's number, only when the stored dic()>0)" % (", ".join(a), at), fn=f)
     callers = []
     g = db.one("get_word_info_subset", "LexiconSet")
     for c, _ in walk(g.hir):
         if is_call(c) and path_ends(callee(c), "update_dict_id"):
-            callers.append(render(call_args(c)[1]))
-    ctx.ob("update_dict_id|owner", len(callers) == 3 and all(x == "dict_id" for x in callers), "all %d call sites pass the looked-up word's own dict_id: %s" % (len(callers), callers), fn=g)
+            from ..db import deref_all as _da
+            d_ = peel_casts(_da(call_args(c)[1]))
+            # the owner is the dictionary number of the looked-up id itself: `id.dic()` of the function's WordId parameter
+            callers.append("id.dic()" if isinstance(d_, dict) and d_.get("k") == "MethodCall" and d_.get("method") == "dic" and
+                           "WordId" in (peel(d_["recv"]).get("ty") or "") and peel(d_["recv"]).get("res") == "local" and "let_init" not in peel(d_["recv"]) else render(call_args(c)[1]))
+    ctx.ob("update_dict_id|owner", len(callers) == 3 and all(x == "id.dic()" for x in callers), "all %d call sites pass the looked-up word's own dict_id: %s" % (len(callers), callers), fn=g)
 
 
 @rule("C12.dic-id", "Morpheme::dictionary_id and PyMorpheme::dictionary_id agree: -1 for OOV, dic() otherwise")
@@ -252,11 +258,12 @@ def merged_oov_id(db, ctx):
     from ..inline import range_bounds
     from ..db import deref_all
     f = db.view(db.one("concat_oov_nodes", None))
+    P = [p_.get("name") for p_ in (f.info.get("params") or []) if isinstance(p_, dict)] + [None] * 3      # (nodes, first, one-past-last) by position
     acc = False
     for itn in iterations(f.hir):
         ch, base = lchain(db, f, itn["it"])
         b = deref_all(base)
-        whole = isinstance(b, dict) and b.get("k") == "Index" and local_name(b["e"]) == "path" and range_bounds(b["i"]) == ("begin", "end")
+        whole = isinstance(b, dict) and b.get("k") == "Index" and local_name(b["e"]) == P[0] and range_bounds(b["i"]) == (P[1], P[2])
         for x, _ in walk(itn["body"]):
             if x.get("k") in ("Assign", "MethodCall") and mentions(x, lambda y: y.get("k") == "MethodCall" and y.get("method") == "max") and \
                     mentions(x, lambda y: y.get("k") == "MethodCall" and y.get("method") == "word_id") and whole:
@@ -266,7 +273,7 @@ def merged_oov_id(db, ctx):
         if c.get("k") == "MethodCall" and c.get("method") in ("max", "fold", "max_by_key") and mentions(c, lambda y: y.get("k") == "MethodCall" and y.get("method") == "word_id"):
             ch, base = lchain(db, f, c["recv"])
             b = deref_all(base)
-            if isinstance(b, dict) and b.get("k") == "Index" and local_name(b["e"]) == "path" and range_bounds(b["i"]) == ("begin", "end"):
+            if isinstance(b, dict) and b.get("k") == "Index" and local_name(b["e"]) == P[0] and range_bounds(b["i"]) == (P[1], P[2]):
                 acc = True
     ctx.ob("concat_oov_nodes|id=max-over-all-parts", acc, "the merged word id accumulates max(node.word_id()) over path[begin..end]: %s" % acc, fn=f)
     oov_fix = any(n.get("k") == "If" and mentions(n["cond"], lambda y: y.get("k") == "MethodCall" and y.get("method") == "is_oov") for n, _ in walk(f.hir)) and \
